@@ -141,3 +141,43 @@ theorem storeRecvd_recvd (s : Src) (r : Option Recvd) (topics : List Topic) :
   unfold storeRecvd; simp only; split <;> rfl
 
 end OF.Recv
+
+namespace OF.Recv
+
+/-- if the scan ends with "all synced" and "no partial" it went through every source: none is partial, and in a
+non-balanced receiver no synchronised source is empty -/
+theorem scanGot_spec (balance : Bool) : ∀ (srcs : List Src) (c : Bool),
+    (scanGot balance srcs (true, c, false)).1 = true → (scanGot balance srcs (true, c, false)).2.2 = false →
+    ∀ s ∈ srcs, got s ≠ .some ∧ (s.eph = 0 → balance = false → got s = .all) := by
+  intro srcs
+  induction srcs with
+  | nil => intro c _ _ s hs; cases hs
+  | cons x xs ih =>
+    intro c h1 h2 s hs
+    unfold scanGot at h1 h2
+    cases hg : got x with
+    | all =>
+      simp only [hg] at h1 h2
+      rcases List.mem_cons.mp hs with rfl | hs'
+      · exact ⟨by rw [hg]; simp, fun _ _ => hg⟩
+      · exact ih true h1 h2 s hs'
+    | some => simp only [hg] at h2; cases h2
+    | none =>
+      simp only [hg] at h1 h2
+      split at h1
+      · cases h1
+      · rename_i hc
+        simp only [hc, ↓reduceIte] at h2
+        rcases List.mem_cons.mp hs with rfl | hs'
+        · refine ⟨by rw [hg]; simp, ?_⟩
+          intro he hb
+          exact absurd ⟨he, by simp [hb]⟩ hc
+        · exact ih c h1 h2 s hs'
+
+theorem returnCond_spec (st : St) (h : returnCond st = true) :
+    ∀ s ∈ st.srcs, got s ≠ .some ∧ (s.eph = 0 → st.balance = false → got s = .all) := by
+  unfold returnCond at h
+  simp only [Bool.and_eq_true, Bool.not_eq_true'] at h
+  exact scanGot_spec st.balance st.srcs false h.1.1.1 h.1.2
+
+end OF.Recv
